@@ -200,12 +200,40 @@ SETTABLE = [
 ]
 
 
-def _single_resource_call(fi, prefix: str) -> Optional[str]:
-    names = []
+def _class_str_attr(ci, attr: str) -> Optional[str]:
+    for c in ci.mro:
+        v = c.attrs.get(attr)
+        if isinstance(v, ast.Constant) and isinstance(v.value, str):
+            return v.value
+        if v is not None:
+            return None
+    return None
+
+
+def _resource_calls(fi, prefix: str, ci=None):
+    """[(method name, call)] for `resource.<prefix>X(...)` in *fi*, including the reflective spelling
+    `getattr(resource, self.<attr>)(...)` with <attr> a class-level string constant of *ci*."""
+    rparam = fi.params[2] if len(fi.params) > 2 else "resource"
+    out = []
     for n in walk_local(fi.node):
-        if isinstance(n, ast.Call) and isinstance(n.func, ast.Attribute) and dotted(n.func.value) == "resource" \
-                and n.func.attr.startswith(prefix):
-            names.append(n.func.attr)
+        if not isinstance(n, ast.Call):
+            continue
+        if isinstance(n.func, ast.Attribute) and dotted(n.func.value) == rparam and n.func.attr.startswith(prefix):
+            out.append((n.func.attr, n))
+        f = n.func
+        if isinstance(f, ast.Call) and dotted(f.func) == "getattr" and len(f.args) == 2 and dotted(f.args[0]) == rparam:
+            nm = None
+            if isinstance(f.args[1], ast.Constant) and isinstance(f.args[1].value, str):
+                nm = f.args[1].value
+            elif isinstance(f.args[1], ast.Attribute) and dotted(f.args[1].value) == "self" and ci is not None:
+                nm = _class_str_attr(ci, f.args[1].attr)
+            if nm and nm.startswith(prefix):
+                out.append((nm, n))
+    return out
+
+
+def _single_resource_call(fi, prefix: str, ci=None) -> Optional[str]:
+    names = [nm for nm, _c in _resource_calls(fi, prefix, ci)]
     return names[0] if len(names) == 1 else None
 
 
@@ -229,11 +257,11 @@ def m4(ctx):
     concrete = [sbc] + sbc.all_subclasses()
     for pq, _ in SETTABLE:
         pc = ctx.P.cls(pq)
-        gv, sv = pc.methods.get("get_value"), pc.methods.get("set_value")
+        gv, sv = ctx.P.lookup_method(pc, "get_value"), ctx.P.lookup_method(pc, "set_value")
         if gv is None or sv is None:
             raise AnalysisError("%s lacks get_value/set_value" % pq)
-        g = _single_resource_call(gv, "get_")
-        s = _single_resource_call(sv, "set_")
+        g = _single_resource_call(gv, "get_", pc)
+        s = _single_resource_call(sv, "set_", pc)
         ok = g is not None and s is not None and g[4:] == s[4:]
         obs.append(ctx.ob(ok, pq, "%s:%d" % (pc.module.rel, pc.node.lineno), "property get/set use the same resource accessor",
                           "resource.%s / resource.%s" % (g, s),
